@@ -5,10 +5,10 @@ CONSTANTS
   MaxHunks = 2
   MaxOld = 2
   MaxNew = 2
-  Ambig = {"minus3"}
-  Titled = FALSE
+  Ambig = {}
+  Titled = TRUE
   Buf = 1
-  Fixes = {"D1", "D14", "D2", "D18", "D19", "D20", "D21", "D23", "D24"}
+  Fixes = {"D1", "D14", "D2", "D18", "D19", "D20", "D21", "D23"}
   ColorOnly = FALSE
   Modes = {}
   ReplayLen = 8
